@@ -70,6 +70,30 @@ func main() {
 			add(q, in, "probe")
 		}
 	}
+	// lexical scope of every construct: a sub-expression D that DECLARES a function / variable /
+	// label next to a sub-expression U that USES the same name and must see the outer one
+	{
+		tmpls := []string{"if . then %D else %U end", "if . then 0 elif . == null then %D else %U end", "if . then %U elif . == null then %D else %U end", "if (%D) then %U else %U end", "if . then %D end | %U", "(%D), %U", "(%D) | %U", "[%D, %U]", "{a: (%D), b: %U}", "{(%D | tostring): %U}",
+			"try (%D) catch %U", "try error(%D) catch %U", "reduce (%D) as $q (0; %U)", "reduce . as $q ((%D); %U)", "reduce . as $q (0; %D) | %U", "foreach . as $q (0; (%D); %U)", "foreach (%D) as $q (0; 1; %U)", "label $w | (%D), %U", "(%D) as $q | %U", "(%D) as [$q] ?// $q | %U", "(%D) // %U", "(%D) + %U", "[%U, (%D), %U]",
+			"first(%D), %U", "def g: %D; g, %U", "def g(h): h; g(%D), %U", "def g: %D; def h: %U; [g, h]", "\"\\(%D)\\(%U)\"", "[.[(%D)]?, %U]", "[(%D)?, %U]", "((%D) | not), %U", "-(%D), %U", "[limit(1; %D)], %U", "path(%D)?, %U", "[(%D), (%D)] | %U", "%U, (%D), %U"}
+		kinds := []struct{ outer, d, u string }{
+			{"def f: \"outer\"; ", "def f: \"inner\"; f", "f"},
+			{"def f(g): [\"outer\", g]; ", "def f(g): [\"inner\", g]; f(1)", "f(2)"},
+			{"def f: \"outer\"; ", "def f: \"inner\"; def k: f; k", "f"},
+			{"\"outer\" as $v | ", "\"inner\" as $v | $v", "$v"},
+			{"[\"outer\"] as [$v] | ", ". as {$v} ?// $v | \"in\"", "$v"},
+			{"label $lb | ", "label $lb | (1, break $lb, 2)", "(3, break $lb, 4)"},
+			{"def f: \"outer\"; def k: f; ", "def f: \"inner\"; k", "k"},
+		}
+		for _, t := range tmpls {
+			for _, k := range kinds {
+				q := k.outer + strings.ReplaceAll(strings.ReplaceAll(t, "%D", k.d), "%U", k.u)
+				for _, in := range []any{nil, false, true, 1, []any{1}} {
+					add(q, in, "scope")
+				}
+			}
+		}
+	}
 	// bounded-exhaustive small programs over a small alphabet
 	atoms := []string{".", "1", "null", ".[]", ".a", "empty", "(1,2)", "error(\"e\")", "[.]", ".[0]"}
 	binops := []string{" | ", ", ", " // ", " + ", " == ", " and ", " as $x | "}
